@@ -26,6 +26,9 @@ def gen_label_body(rng, depth, budget):
             out.append(('ifelsegoto', rng.choice(NAMES), rng.choice(NAMES)))
         elif k < 0.85 and depth < 3:
             out.append(('block', gen_label_body(rng, depth + 1, budget)))
+        elif depth < 3 and rng.random() < 0.4:
+            # both branches braced: the errors of the two branches (and of whatever follows) must ALL surface, whichever branch has more
+            out.append(('ifelseblock', gen_label_body(rng, depth + 1, budget), gen_label_body(rng, depth + 1, budget)))
         elif depth < 3:
             out.append(('ifblock', gen_label_body(rng, depth + 1, budget)))
         else:
@@ -50,6 +53,8 @@ def label_src(stmts, ind='\t'):
             s += '%s{\n%s%s}\n' % (ind, label_src(st[1], ind + '\t'), ind)
         elif st[0] == 'ifblock':
             s += '%sif v == 1\n%s{\n%s%s}\n' % (ind, ind, label_src(st[1], ind + '\t'), ind)
+        elif st[0] == 'ifelseblock':
+            s += '%sif v == 1\n%s{\n%s%s}\n%selse\n%s{\n%s%s}\n' % (ind, ind, label_src(st[1], ind + '\t'), ind, ind, ind, label_src(st[2], ind + '\t'), ind)
     return s
 
 
@@ -69,6 +74,11 @@ def label_oracle(stmts, outer):
             a, b = label_oracle(st[1], later | outer)
             e400 += a
             e420 += b
+        elif st[0] == 'ifelseblock':
+            for branch in st[1:]:
+                a, b = label_oracle(branch, later | outer)
+                e400 += a
+                e420 += b
     return e400, e420
 
 
